@@ -1,9 +1,313 @@
 /-
-  C01 — property theorems (placeholder while the end-to-end pipeline is brought up).
+  C01 — property theorems: the executor model (ApiFu.C01.Model, the code as written, memo included)
+  refines the June-2018 execution algorithm (ApiFu.C01.Spec).
+
+  Quantifiers. Every theorem holds for every schema `S`, document `D`, world (`root : RVal`),
+  operation name and every fuel of either side; "sufficient fuel" appears as the hypotheses that the
+  model's run is `.ok resp` (not `stuck outOfFuel`) and the reference's is `.executed s`.
+  "Validated shape" appears as two explicit hypotheses:
+    * `s.undef = false` — the reference met no selected field that is undefined on its object type
+      (validation rule FieldsOnCorrectType excludes it);
+    * `(D.nodes.map Selection.pos).Nodup` — distinct selection nodes have distinct (line, column)
+      (a fact about parsed documents, property C06); needed only because `collectFields` memoises by
+      positions. The memo-free variant of the model needs neither position hypothesis nor node set.
+  Helper lemmas live in Lemmas.lean; only the property statements are here.
 -/
-import ApiFu.C01.Model
-import ApiFu.C01.Spec
+import ApiFu.C01.Lemmas
 
 namespace ApiFu.C01
+
+/-! ## 1. Response keys -/
+
+/-- **exec_keys_in_document_order** — the keys of the object the executor builds for a selection set
+    are, slot by slot, the response keys of the grouped field set, i.e. of the field sequence obtained
+    by expanding fragments (each at its first spread) and applying `@skip`/`@include`, in order of first
+    occurrence (`firstOccurrences`, `groupInOrder_keys`); a slot is blank exactly when its field is not
+    defined on the object type (`slotKey`). Holds for the model as written (memo on or off). -/
+theorem exec_keys_in_document_order (memo : Bool) (S : Schema) (D : Document)
+    (hpos : (D.nodes.map Selection.pos).Nodup)
+    (fuel : Nat) (o : ObjT) (sels : List Selection) (v : RVal) (path : Path) (j : Json)
+    (ho : S.object? o.name = some o) (hsels : ∀ s ∈ sels, s ∈ D.nodes)
+    (h : (execSelections memo S D fuel o sels v path []).r = .ok j) :
+    ∃ fuel0 fs vis kvs, expand S D o fuel0 sels [] = .ok (fs, vis) ∧ j = .obj kvs ∧
+      kvs.map (·.1) = (groupInOrder fs).map (slotKey o) ∧
+      (groupInOrder fs).keys = firstOccurrences (fs.map FieldNode.responseKey) ∧
+      ∀ p ∈ groupInOrder fs, p.2 = fs.filter (fun f => f.responseKey == p.1) := by
+  obtain ⟨fuel0, fs, vis, kvs, h1, h2, h3⟩ :=
+    execSelections_keys memo S D (· ∈ D.nodes) (nodeSet_of_distinct_positions D hpos).1 fuel o sels v path [] j
+      (cacheOK_nil _ _ _) ho hsels h
+  exact ⟨fuel0, fs, vis, kvs, h1, h2, h3, groupInOrder_keys fs, groupInOrder_exact fs⟩
+
+/-- Non-vacuity of the order statement: `b a b` with an alias collapses to keys `b, a` in that order. -/
+example :
+    firstOccurrences (["b", "a", "b", "c", "a"]) = ["b", "a", "c"] := by decide
+
+/-- **exec_no_blank_key** — if every collected field is defined on the object type (or is
+    `__typename`), the result object's keys are exactly the response keys in document order: no blank
+    key, none missing, none duplicated. -/
+theorem exec_no_blank_key (memo : Bool) (S : Schema) (D : Document)
+    (hpos : (D.nodes.map Selection.pos).Nodup)
+    (fuel : Nat) (o : ObjT) (sels : List Selection) (v : RVal) (path : Path) (j : Json)
+    (ho : S.object? o.name = some o) (hsels : ∀ s ∈ sels, s ∈ D.nodes)
+    (h : (execSelections memo S D fuel o sels v path []).r = .ok j) :
+    ∃ fuel0 fs vis kvs, expand S D o fuel0 sels [] = .ok (fs, vis) ∧ j = .obj kvs ∧
+      ((∀ f ∈ fs, f.name = "__typename" ∨ (o.getField f.name).isSome) →
+        kvs.map (·.1) = firstOccurrences (fs.map FieldNode.responseKey) ∧ (kvs.map (·.1)).Nodup) := by
+  obtain ⟨fuel0, fs, vis, kvs, h1, h2, h3, h4, h5⟩ := exec_keys_in_document_order memo S D hpos fuel o sels v path j ho hsels h
+  refine ⟨fuel0, fs, vis, kvs, h1, h2, ?_⟩
+  intro hdef
+  have hslot : ∀ p ∈ groupInOrder fs, slotKey o p = p.1 := by
+    intro p hp
+    apply Classical.byContradiction
+    intro hne
+    obtain ⟨f0, hh, hn, hg, _⟩ := slotKey_ne o p hne
+    have hmem : f0 ∈ p.2 := List.mem_of_mem_head? hh
+    rw [h5 p hp] at hmem
+    have hf0 : f0 ∈ fs := (List.mem_filter.mp hmem).1
+    rcases hdef f0 hf0 with h' | h'
+    · exact hn h'
+    · simp [hg] at h'
+  have : kvs.map (·.1) = (groupInOrder fs).keys := by
+    rw [h3]
+    exact List.map_congr_left hslot
+  rw [this, ← h4]
+  exact ⟨rfl, groupInOrder_nodup fs⟩
+
+/-! ## 2. Non-null propagation -/
+
+/-- **nonnull_never_null** — completing a value at a Non-Null type never yields null: a null inner
+    result becomes the field error "Null result for non-null field." -/
+theorem nonnull_never_null (memo : Bool) (S : Schema) (D : Document) (fuel : Nat) (t : TypeRef)
+    (fields : List FieldNode) (f0 : FieldNode) (v : RVal) (path : Path) (c : Cache) :
+    (completeValue memo S D fuel (.nonNull t) fields f0 v path c).r ≠ .ok .null := by
+  cases fuel with
+  | zero => simp [completeValue]
+  | succ fuel =>
+    simp only [completeValue]
+    cases hr : (completeValue memo S D fuel t fields f0 v path c).r with
+    | ok j => cases j <;> simp [hr]
+    | err e => simp [hr]
+    | stuck st => simp [hr]
+
+/-- **nonnull_position_propagates** — at a Non-Null position (field or list item) an error is not
+    caught: it is handed to the enclosing selection set / list unchanged. -/
+theorem nonnull_position_propagates (t : TypeRef) (out : Out) : catchIfNullable (.nonNull t) out = out := rfl
+
+/-- **nullable_position_absorbs** — at a nullable position an error becomes null and is appended to the
+    error list exactly once. -/
+theorem nullable_position_absorbs (t : TypeRef) (hn : ∀ t', t ≠ .nonNull t') (out : Out) (e : Err) (hr : out.r = .err e) :
+    catchIfNullable t out = { out with r := .ok .null, errs := out.errs ++ [e] } := by
+  cases t with
+  | nonNull t' => exact absurd rfl (hn t')
+  | named n => simp [catchIfNullable, hr]
+  | list t' => simp [catchIfNullable, hr]
+
+/-- **failed_field_fails_selection_set** — when the field of the first group fails after error handling
+    at its position (i.e. its type is Non-Null), the whole selection set fails with that error and the
+    remaining fields are not executed (the early return). -/
+theorem failed_field_fails_selection_set (o : ObjT) (path : Path)
+    (field : List FieldNode → FieldNode → FieldDef → Path → Cache → Out)
+    (key : String) (f0 : FieldNode) (tl : List FieldNode) (rest : Grouped) (fd : FieldDef)
+    (acc : List (String × Json)) (errs : List Err) (c : Cache) (e : Err)
+    (htn : f0.name ≠ "__typename") (hfd : o.getField f0.name = some fd)
+    (hfail : (catchIfNullable fd.type (field (f0 :: tl) f0 fd (path ++ [.key key]) c)).r = .err e) :
+    (execItemsWith o path field ((key, f0 :: tl) :: rest) acc errs c).r = .err e := by
+  have htn' : (f0.name == "__typename") = false := by simpa using htn
+  simp [execItemsWith, htn', hfd, hfail]
+
+/-- **failed_item_fails_list** — `future.Join`: a list with a failed item (possible only when the item
+    type is Non-Null, by `nullable_position_absorbs`) fails with the first such error. -/
+theorem failed_item_fails_list (rs : List R) (e : Err) (hs : rs.findSome? R.stuck? = none)
+    (he : rs.findSome? R.err? = some e) : joinResults rs = .err e := by
+  simp [joinResults, hs, he]
+
+/-- **root_failure_nulls_data** — a failure that reaches the root selection set makes `data` null and
+    is reported last. -/
+theorem root_failure_nulls_data (memo : Bool) (S : Schema) (D : Document) (fuel : Nat) (opName : String) (root : RVal)
+    (op : Op) (o : ObjT) (e : Err)
+    (hop : getOperation D opName = .ok op) (hroot : (rootTypeName S op.kind).bind S.object? = some o)
+    (hfail : (execSelections memo S D fuel o op.sels root [] []).r = .err e) :
+    execute memo S D fuel opName root =
+      .ok { data := none, errors := (execSelections memo S D fuel o op.sels root [] []).errs ++ [e] } := by
+  simp [execute, hop, hroot, hfail]
+
+/-! ## 3. Data equals the reference's; 4. the error sandwich -/
+
+/-- **exec_data_eq_ref** — the response data of the executor model is the data the June-2018 algorithm
+    prescribes (`none` = `"data": null`). -/
+theorem exec_data_eq_ref (S : Schema) (D : Document) (hpos : (D.nodes.map Selection.pos).Nodup)
+    (fuel fuel' : Nat) (opName : String) (root : RVal) (resp : Response) (s : Spec.SOut)
+    (hm : execute true S D fuel opName root = .ok resp)
+    (hs : Spec.executeRequest S D fuel' opName root = .executed s) (hu : s.undef = false) :
+    resp.data = s.data :=
+  (execute_refines true S D (· ∈ D.nodes) (nodeSet_of_distinct_positions D hpos).1
+    (nodeSet_of_distinct_positions D hpos).2 fuel fuel' opName root resp s hm hs hu).1
+
+/-- **errors_sandwich** — as multisets, required ⊆ reported ⊆ all: every error the reference requires
+    (one per failure-null visible in data) is reported, and nothing is reported that no evaluation
+    order of the reference produces, nor more often. Errors are compared in full (message class, path,
+    locations), which is finer than the (path, locations) key of the property statement. -/
+theorem errors_sandwich (S : Schema) (D : Document) (hpos : (D.nodes.map Selection.pos).Nodup)
+    (fuel fuel' : Nat) (opName : String) (root : RVal) (resp : Response) (s : Spec.SOut)
+    (hm : execute true S D fuel opName root = .ok resp)
+    (hs : Spec.executeRequest S D fuel' opName root = .executed s) (hu : s.undef = false) :
+    s.req ⊆ₘ resp.errors ∧ resp.errors ⊆ₘ s.all :=
+  (execute_refines true S D (· ∈ D.nodes) (nodeSet_of_distinct_positions D hpos).1
+    (nodeSet_of_distinct_positions D hpos).2 fuel fuel' opName root resp s hm hs hu).2
+
+/-- **exec_refines_ref_without_memo** — the same two statements for the model with the memo switched
+    off, for *every* document (no hypothesis on positions): the memo is the only reason positions
+    matter. -/
+theorem exec_refines_ref_without_memo (S : Schema) (D : Document)
+    (fuel fuel' : Nat) (opName : String) (root : RVal) (resp : Response) (s : Spec.SOut)
+    (hm : execute false S D fuel opName root = .ok resp)
+    (hs : Spec.executeRequest S D fuel' opName root = .executed s) (hu : s.undef = false) :
+    resp.data = s.data ∧ s.req ⊆ₘ resp.errors ∧ resp.errors ⊆ₘ s.all :=
+  execute_refines_noMemo S D fuel fuel' opName root resp s hm hs hu
+
+/-- **exec_request_error** — when the specification's GetOperation fails, or the schema has no root type
+    for the operation, the executor returns no data and exactly one error, without a path. -/
+theorem exec_request_error (memo : Bool) (S : Schema) (D : Document) (fuel fuel' : Nat) (opName : String) (root : RVal)
+    (hs : Spec.executeRequest S D fuel' opName root = .requestError) :
+    ∃ e, execute memo S D fuel opName root = .ok { data := none, errors := [e] } ∧ e.path = [] :=
+  execute_requestError memo S D fuel fuel' opName root hs
+
+/-- **collectFields_memo_sound** — with a memo satisfying the invariant, `collectFields` returns the
+    grouping of the expanded field sequence (what a fresh computation returns) and keeps the
+    invariant; the invariant holds of the empty memo. -/
+theorem collectFields_memo_sound (S : Schema) (D : Document) (hpos : (D.nodes.map Selection.pos).Nodup)
+    (fuel : Nat) (o : ObjT) (sels : List Selection) (c : Cache) (g : Grouped) (c' : Cache)
+    (hc : CacheOK S D (· ∈ D.nodes) c) (ho : S.object? o.name = some o) (hsels : ∀ s ∈ sels, s ∈ D.nodes)
+    (h : collectFields true S D fuel o sels c = .ok (g, c')) :
+    CacheOK S D (· ∈ D.nodes) c' ∧ ∃ fuel0 fs v, expand S D o fuel0 sels [] = .ok (fs, v) ∧ g = groupInOrder fs :=
+  collectFields_inv true S D (· ∈ D.nodes) (nodeSet_of_distinct_positions D hpos).1 fuel o sels c g c' hc ho hsels h
+
+/-! ## 6. Leaf coercion -/
+
+/-- **leaf_coercion** — a leaf value at a built-in scalar type is completed to exactly
+    `Spec.resultCoerce` of it, or fails with "invalid scalar result value". -/
+theorem leaf_coercion (memo : Bool) (S : Schema) (D : Document) (fuel : Nat) (n : String) (k : ScalarKind)
+    (fields : List FieldNode) (f0 : FieldNode) (g : GoVal) (path : Path) (c : Cache)
+    (hl : S.lookup n = some (.scalar k)) :
+    (completeValue memo S D (fuel + 1) (.named n) fields f0 (.leaf g) path c).r =
+      match Spec.resultCoerce k g with
+      | some j => .ok j
+      | none => .err (errAt f0 path .scalarResult) := by
+  simp only [completeValue, RVal.isNil, Bool.false_eq_true, if_false, hl, coerceScalar_eq]
+  cases Spec.resultCoerce k g <;> rfl
+
+/-- **int_result_in_range** — an Int result is an integer within the signed 32-bit range. -/
+theorem int_result_in_range (g : GoVal) (j : Json) (h : Spec.resultCoerce .int g = some j) :
+    ∃ z : Int, j = .int z ∧ -(2 ^ 31 : Int) ≤ z ∧ z < 2 ^ 31 := by
+  simp only [Spec.resultCoerce] at h
+  cases ha : Spec.asInteger? g with
+  | none => simp [ha] at h
+  | some z =>
+    simp only [ha] at h
+    by_cases hr : (-(2 ^ 31 : Int) ≤ z ∧ z < 2 ^ 31)
+    · rw [if_pos hr] at h
+      exact ⟨z, (Option.some.inj h).symm, hr⟩
+    · rw [if_neg hr] at h
+      exact absurd h (by simp)
+
+/-- Non-vacuity of the range statement: the bounds are attained and the next values are rejected. -/
+example : Spec.resultCoerce .int (.int 2147483647) = some (.int 2147483647) ∧
+    Spec.resultCoerce .int (.int 2147483648) = none ∧
+    Spec.resultCoerce .int (.int (-2147483648)) = some (.int (-2147483648)) ∧
+    Spec.resultCoerce .int (.int (-2147483649)) = none ∧
+    Spec.resultCoerce .int (.flt 5 (-1)) = none ∧ Spec.resultCoerce .int (.flt 3 1) = some (.int 6) := by
+  refine ⟨by rfl, by rfl, by rfl, by rfl, by rfl, by rfl⟩
+
+/-- **enum_result_declared** — an enum result is the name of a declared value whose Go value is the
+    resolver's result; anything else fails with "invalid … enum value". -/
+theorem enum_result_declared (memo : Bool) (S : Schema) (D : Document) (fuel : Nat) (n : String)
+    (values : List (String × GoVal)) (fields : List FieldNode) (f0 : FieldNode) (g : GoVal) (path : Path) (c : Cache)
+    (hl : S.lookup n = some (.enum values)) :
+    (∃ name, (name, g) ∈ values ∧
+      (completeValue memo S D (fuel + 1) (.named n) fields f0 (.leaf g) path c).r = .ok (.str name)) ∨
+    ((∀ name, (name, g) ∉ values) ∧
+      (completeValue memo S D (fuel + 1) (.named n) fields f0 (.leaf g) path c).r = .err (errAt f0 path (.enumResult n))) := by
+  simp only [completeValue, RVal.isNil, Bool.false_eq_true, if_false, hl, coerceEnum]
+  cases hf : values.find? (fun p => p.2 == g) with
+  | some p =>
+    left
+    have hm := List.mem_of_find?_eq_some hf
+    have hp : p.2 = g := by simpa using List.find?_some hf
+    refine ⟨p.1, ?_, rfl⟩
+    rw [← hp]; exact hm
+  | none =>
+    right
+    refine ⟨?_, rfl⟩
+    intro name hm
+    have := List.find?_eq_none.mp hf (name, g) hm
+    simp at this
+
+/-! ## Non-vacuity: an interface field, a merged fragment, `[T!]!` under a nullable parent under a
+    non-null grandparent, one failing item -/
+
+namespace Example
+
+def S : Schema :=
+  { types := [("Int", .scalar .int), ("String", .scalar .string),
+      ("Node", .interface [⟨"id", .named "Int"⟩]),
+      ("Item", .object [⟨"id", .named "Int"⟩, ⟨"name", .named "String"⟩] ["Node"]),
+      ("Holder", .object [⟨"items", .nonNull (.list (.nonNull (.named "Node")))⟩] []),
+      ("Root", .object [⟨"p", .named "Holder"⟩] []),
+      ("Query", .object [⟨"g", .nonNull (.named "Root")⟩] [])],
+    query := "Query", mutation := none, subscription := none }
+
+/-- `{ g { p { items { id ...F } ... on Holder { items { ...F } } } } } fragment F on Item { name }`:
+    `items` is selected twice (directly and through an inline fragment) and merges; `F` is spread in
+    both sub-selections and is expanded once (visited fragments). -/
+def D : Document :=
+  { ops := [{ kind := .query, name := none, pos := ⟨1, 1⟩, sels :=
+      [.field ⟨1, 3⟩ none "g" "g" none [] [
+        .field ⟨1, 7⟩ none "p" "p" none [] [
+          .field ⟨1, 11⟩ none "items" "items" none [] [
+            .field ⟨1, 19⟩ none "id" "id" none [] [],
+            .spread ⟨1, 22⟩ "F" []],
+          .inline ⟨1, 29⟩ (some "Holder") [] [
+            .field ⟨1, 45⟩ none "items" "items" none [] [.spread ⟨1, 53⟩ "F" []]]]]] }],
+    frags := [{ name := "F", tc := "Item", sels := [.field ⟨1, 85⟩ none "name" "name" none [] []] }] }
+
+def item (n : Int) (s : String) : RVal := .obj "Item" [.mk "id" (.val (.leaf (.int n))), .mk "name" (.val (.leaf (.str s)))]
+
+/-- the second item of the `[Node!]!` list is null -/
+def W : RVal :=
+  .obj "Query" [.mk "g" (.val (.obj "Root" [.mk "p" (.val (.obj "Holder" [.mk "items" (.val (.list [item 1 "a", .null, item 3 "c"]))]))]))]
+
+/-- no failure -/
+def Wok : RVal :=
+  .obj "Query" [.mk "g" (.val (.obj "Root" [.mk "p" (.val (.obj "Holder" [.mk "items" (.val (.list [item 1 "a", item 3 "c"]))]))]))]
+
+def nullErr : Err := { msg := .nullNonNull, path := [.key "g", .key "p", .key "items", .idx 1], locs := [⟨1, 11⟩] }
+
+/-- the positions hypothesis is satisfiable -/
+example : (D.nodes.map Selection.pos).Nodup := by decide
+
+/-- The failing item nulls the list, the list's non-null wrapper hands the error to `p` (nullable,
+    the nearest nullable ancestor), `g` (non-null grandparent) survives. -/
+example : execute true S D (fuelFor S D) "" W = .ok { data := some (.obj [("g", .obj [("p", .null)])]), errors := [nullErr] } := by
+  rfl
+
+/-- The reference agrees: that error is both the only possible and the required one. -/
+example : Spec.executeRequest S D (fuelFor S D) "" W =
+    .executed { data := some (.obj [("g", .obj [("p", .null)])]), all := [nullErr], req := [nullErr], undef := false } := by
+  rfl
+
+/-- Without the failure: merged `items`, interface field `id`, fragment field `name`, in document order. -/
+example : execute true S D (fuelFor S D) "" Wok =
+    .ok { data := some (.obj [("g", .obj [("p", .obj [("items", .arr [.obj [("id", .int 1), ("name", .str "a")],
+                                                                         .obj [("id", .int 3), ("name", .str "c")]])])])]),
+          errors := [] } := by
+  rfl
+
+/-- `exec_data_eq_ref` / `errors_sandwich` instantiated: all hypotheses hold for the example. -/
+example (resp : Response) (s : Spec.SOut) (hm : execute true S D (fuelFor S D) "" W = .ok resp)
+    (hs : Spec.executeRequest S D (fuelFor S D) "" W = .executed s) (hu : s.undef = false) :
+    resp.data = s.data ∧ s.req ⊆ₘ resp.errors ∧ resp.errors ⊆ₘ s.all :=
+  ⟨exec_data_eq_ref S D (by decide) _ _ _ _ resp s hm hs hu, errors_sandwich S D (by decide) _ _ _ _ resp s hm hs hu⟩
+
+end Example
 
 end ApiFu.C01
